@@ -86,6 +86,26 @@ def shrink(mod, prop: str, seed: int, out: Outcome, v: dict, budget_s: float = 2
     return best
 
 
+def run_guarded(mod, out) -> None:
+    """`mod.run(out)`; an exception that the LIBRARY under test raised on an input this harness built as a valid one (some frame of the traceback is inside the repository,
+    and the harness had no handler for it because the unchanged tree never raises there) is what the run found - a violation with the traceback as its replay - not a
+    failure of the infrastructure.  Exceptions of the harness's own code (no frame in the repository) still end the check with exit 2."""
+    try:
+        mod.run(out)
+    except Infra:
+        raise
+    except Exception as e:  # noqa: BLE001
+        frames = traceback.extract_tb(e.__traceback__)
+        repo = str(common.REPO.resolve())
+        lib = [f for f in frames if str(Path(f.filename).resolve()).startswith(repo + os.sep)]
+        if not lib:
+            raise
+        where = [f"{Path(f.filename).name}:{f.lineno} {f.name}" for f in frames if "harness" in f.filename][-3:]
+        out.violation(f"the library raised {type(e).__name__}: {e} on an input the check builds as a valid one (raised in {Path(lib[-1].filename).name}:{lib[-1].lineno} {lib[-1].name}; "
+                      f"check at {' <- '.join(reversed(where))}); the unchanged tree does not raise there",
+                      {"kind": "exception-in-library", "exception": type(e).__name__, "message": str(e), "traceback": traceback.format_exception(type(e), e, e.__traceback__)[-12:]})
+
+
 def main() -> int:
     ap = argparse.ArgumentParser()
     ap.add_argument("prop")
@@ -114,7 +134,7 @@ def main() -> int:
                         out.count("corpus_entries_replayed")
                     except Exception:  # noqa: BLE001
                         out.count("corpus_entries_unreadable")
-            mod.run(out)
+            run_guarded(mod, out)
             # thorough tier: further rounds of the same exploration with derived seeds (VERIF_ROUNDS, default 3 in the thorough tier, 1 in quick);
             # everything accumulates in the same outcome, a violation ends the rounds
             rounds = int(os.environ.get("VERIF_ROUNDS", "3" if a.tier == "thorough" else "1") or 1)
@@ -122,7 +142,7 @@ def main() -> int:
                 if out.violations or out.mismatches or time.time() - t0 > 1500:
                     break
                 out.seed = seed * 7919 + 104729 * k
-                mod.run(out)
+                run_guarded(mod, out)
                 out.count("extra_rounds")
             out.seed = seed
             if getattr(mod, "RULE_ADDENDA", None):
